@@ -45,3 +45,265 @@ safe IterateContainerSizes [C03]
 safe IterateAllContainerSizes [C03]
 safe Version [C03]
 @*/
+
+/*@
+module registry
+props C04
+use common core
+dialect neovm
+
+// C04: the container registry. Key layout: x<id> blob, o<owner><id> owner index, d<id> tombstone, m<id> meta flag,
+// eACL<id> table, nnsHasAlias<id> alias. Ids are SHA-256 hashes of the blob, owners are the 25 bytes found in the blob.
+pure xk(id Bytes) Bytes  = "x" ++ id
+pure dk(id Bytes) Bytes  = "d" ++ id
+pure mk_(id Bytes) Bytes = "m" ++ id
+pure ek(id Bytes) Bytes  = "eACL" ++ id
+pure ak(id Bytes) Bytes  = "nnsHasAlias" ++ id
+pure ok_(o Bytes, id Bytes) Bytes = "o" ++ o ++ id
+pure off(c Bytes) Int = 2 + c[1] + 4
+pure ownerOfBlob(c Bytes) Bytes = c[off(c) : off(c) + 25]
+pure blob(s Store, id Bytes) Bytes = deser_Container(s.get(xk(id))).Value
+pure live(s Store, id Bytes) Bool = s.has(xk(id)) && len(blob(s, id)) != 0
+pure cidOfEACL(e Bytes) Bytes = e[off(e) : off(e) + 32]
+
+// registry invariants for 32-byte ids (R1: a live container is indexed under its owner; R3: a deleted id has no trace)
+pred R1(s Store) = forall id Bytes {s.opt(xk(id))} :: len(id) == 32 && live(s, id)
+        ==> s.has(ok_(ownerOfBlob(blob(s, id)), id)) && s.get(ok_(ownerOfBlob(blob(s, id)), id)) == id
+pred R3(s Store) = forall id Bytes {s.opt(dk(id))} :: len(id) == 32 && s.has(dk(id))
+        ==> !s.has(xk(id)) && !s.has(mk_(id)) && !s.has(ek(id))
+
+// a stored alias is never the empty string (it always contains the dot between name and zone)
+invariant InvAlias [C04] = forall id Bytes {store.opt(ak(id))} :: store.has(ak(id)) ==> len(store.get(ak(id))) != 0
+
+func ownerFromBinaryContainer(container) (r)
+  pure
+  ensures !isnil(r) && r == ownerOfBlob(container)
+
+func getContainer(ctx, cid) (r)
+  pure
+  ensures store.has(xk(cid)) ==> r == deser_Container(store.get(xk(cid)))
+  ensures !store.has(xk(cid)) ==> len(r.Value) == 0
+
+func getOwnerByID(ctx, cid) (r)
+  pure
+  ensures [C04] live(store, cid) ==> !isnil(r) && r == ownerOfBlob(blob(store, cid))
+  ensures [C04] !live(store, cid) ==> isnil(r)
+
+func getEACL(ctx, cid) (r)
+  pure
+  ensures store.has(ek(cid)) ==> r == deser_ExtendedACL(store.get(ek(cid)))
+  ensures !store.has(ek(cid)) ==> len(r.Value) == 0
+
+func addContainer(ctx, id, owner, container)
+  ensures [C04] store.has(xk(id)) && store.get(xk(id)) == ser_Container(container)
+  ensures [C04] store.has(ok_(owner, id)) && store.get(ok_(owner, id)) == id
+  ensures [C04] forall k Bytes {store.opt(k)} :: k != xk(id) && k != ok_(owner, id) ==> store.opt(k) == old(store).opt(k)
+  ensures notifs == old(notifs)
+
+func removeContainer(ctx, id, owner)
+  ensures [C04] !store.has(xk(id)) && !store.has(ok_(owner, id)) && !store.has(mk_(id)) && !store.has(ek(id)) && store.has(dk(id))
+  ensures [C04] forall k Bytes {store.opt(k)} :: k != xk(id) && k != ok_(owner, id) && k != mk_(id) && k != ek(id) && k != dk(id)
+        ==> store.opt(k) == old(store).opt(k)
+  ensures [C04] len(id) == 32 && len(owner) == 25 && R1(old(store)) ==> R1(store)
+  ensures [C04] len(id) == 32 && len(owner) == 25 && R3(old(store)) ==> R3(store)
+  ensures notifs == old(notifs)
+
+// removal of the alias record in NNS happens behind defer/recover around a cross-contract call: outside the
+// verifier's subset, contract assumed (what NNS then does is C12)
+func deleteNNSRecords(ctx, domain)
+  trusted
+  ensures store == old(store) && notifs == old(notifs)
+
+func checkNiceNameAvailable(nnsContractAddr, domain) (r)
+  ensures store == old(store) && notifs == old(notifs)
+
+func PutNamed(container, signature, publicKey, token, name, zone)
+  // a deleted id can never be registered again
+  ensures [C04] !old(store).has(dk(sha256(container)))
+  ensures [C04] W(alphabet())
+  ensures [C04] store.has(xk(sha256(container)))
+        && deser_Container(store.get(xk(sha256(container)))) == Container{container, signature, publicKey, token}
+  ensures [C04] store.has(ok_(ownerOfBlob(container), sha256(container))) && store.get(ok_(ownerOfBlob(container), sha256(container))) == sha256(container)
+  ensures [C04] name != "" && old(store).has("nnsRoot") ==> store.has(ak(sha256(container)))
+        && store.get(ak(sha256(container))) == name ++ "." ++ (zone == "" ? old(store).get("nnsRoot") : zone)
+  ensures [C04] forall k Bytes {store.opt(k)} :: k != xk(sha256(container)) && k != ok_(ownerOfBlob(container), sha256(container))
+        && !(name != "" && k == ak(sha256(container))) ==> store.opt(k) == old(store).opt(k)
+  ensures [C04] notifs == old(notifs) ++ [PutSuccess(sha256(container), publicKey)]
+  loop 0
+    invariant store == entry(store) && notifs == entry(notifs)
+
+func Put(container, signature, publicKey, token)
+  ensures [C04] !old(store).has(dk(sha256(container)))
+  ensures [C04] store.has(xk(sha256(container)))
+        && deser_Container(store.get(xk(sha256(container)))) == Container{container, signature, publicKey, token}
+  ensures [C04] forall k Bytes {store.opt(k)} :: k != xk(sha256(container)) && k != ok_(ownerOfBlob(container), sha256(container)) ==> store.opt(k) == old(store).opt(k)
+  ensures [C04] notifs == old(notifs) ++ [PutSuccess(sha256(container), publicKey)]
+
+func PutMeta(container, signature, publicKey, token, metaOnChain)
+  ensures [C04] !old(store).has(dk(sha256(container)))
+  ensures [C04] store.has(xk(sha256(container)))
+  ensures [C04] metaOnChain ==> store.has(mk_(sha256(container)))
+  ensures [C04] forall k Bytes {store.opt(k)} :: k != xk(sha256(container)) && k != ok_(ownerOfBlob(container), sha256(container))
+        && !(metaOnChain && k == mk_(sha256(container))) ==> store.opt(k) == old(store).opt(k)
+  ensures [C04] notifs == old(notifs) ++ [PutSuccess(sha256(container), publicKey)]
+
+func Delete(containerID, signature, token)
+  // deleting a missing container changes nothing and notifies nothing
+  ensures [C04] !live(old(store), containerID) ==> store == old(store) && notifs == old(notifs) && xcalls == old(xcalls)
+  ensures [C04] live(old(store), containerID) ==> W(alphabet())
+  // every trace is removed, the tombstone is written
+  ensures [C04] live(old(store), containerID) ==> !store.has(xk(containerID)) && !store.has(mk_(containerID)) && !store.has(ek(containerID))
+        && !store.has(ak(containerID)) && !store.has(ok_(ownerOfBlob(old(blob(store, containerID))), containerID)) && store.has(dk(containerID))
+  ensures [C04] live(old(store), containerID) ==> forall k Bytes {store.opt(k)} :: k != xk(containerID) && k != mk_(containerID) && k != ek(containerID)
+        && k != ak(containerID) && k != ok_(ownerOfBlob(old(blob(store, containerID))), containerID) && k != dk(containerID) ==> store.opt(k) == old(store).opt(k)
+  ensures [C04] live(old(store), containerID) ==> notifs == old(notifs) ++ [DeleteSuccess(containerID)]
+
+func SetEACL(eACL, signature, publicKey, token)
+  ensures [C04] live(old(store), cidOfEACL(eACL)) && W(alphabet())
+  ensures [C04] store.has(ek(cidOfEACL(eACL))) && deser_ExtendedACL(store.get(ek(cidOfEACL(eACL)))) == ExtendedACL{eACL, signature, publicKey, token}
+  ensures [C04] forall k Bytes {store.opt(k)} :: k != ek(cidOfEACL(eACL)) ==> store.opt(k) == old(store).opt(k)
+  ensures [C04] notifs == old(notifs) ++ [SetEACLSuccess(cidOfEACL(eACL), publicKey)]
+
+// getters report 'not found' (fault) exactly for ids that are not live and return the stored data otherwise
+func Get(containerID) (r)
+  pure
+  ensures [C04] live(store, containerID) && r == deser_Container(store.get(xk(containerID)))
+
+func Owner(containerID) (r)
+  pure
+  ensures [C04] live(store, containerID) && r == ownerOfBlob(blob(store, containerID))
+
+func Alias(cid) (r)
+  pure
+  ensures [C04] live(store, cid)
+  ensures [C04] store.has(ak(cid)) ==> r == store.get(ak(cid))
+  ensures [C04] !store.has(ak(cid)) ==> len(r) == 0
+
+func EACL(containerID) (r)
+  pure
+  ensures [C04] live(store, containerID)
+  ensures [C04] store.has(ek(containerID)) ==> r == deser_ExtendedACL(store.get(ek(containerID)))
+
+func Count() (r)
+  pure
+  ensures [C04] r == cnt(store, "x")
+  loop 0
+    invariant count == $it.pos
+
+func getAllContainers(ctx) (r)
+  pure
+  ensures [C04] len(r) == cnt(store, "x")
+  ensures [C04] forall j Int {r[j]} :: 0 <= j && j < len(r) ==> r[j] == skey(store, "x", j)[1:]
+  loop 0
+    invariant len(list) == $it.pos
+    invariant forall j Int {list[j]} :: 0 <= j && j < $it.pos ==> list[j] == $it.key(j)[1:]
+
+func List(owner) (r)
+  pure
+  ensures [C04] len(owner) == 0 ==> len(r) == cnt(store, "x") && (forall j Int {r[j]} :: 0 <= j && j < len(r) ==> r[j] == skey(store, "x", j)[1:])
+  ensures [C04] len(owner) != 0 ==> len(r) == cnt(store, "o" ++ owner)
+        && (forall j Int {r[j]} :: 0 <= j && j < len(r) ==> r[j] == store.get(skey(store, "o" ++ owner, j)))
+  loop 0
+    invariant len(list) == $it.pos
+    invariant forall j Int {list[j]} :: 0 <= j && j < $it.pos ==> list[j] == store.get($it.key(j))
+
+// the NEP-11 callback is empty (so a register call made by PutNamed cannot re-enter state)
+func OnNEP11Payment(a, b, c, d)
+  pure
+  ensures true
+@*/
+
+/*@
+module fee
+props C05
+use common core
+dialect neovm
+
+// C05: a successful registration makes exactly len(committee) transferX calls to the Balance contract, the j-th moving
+// exactly fee from the owner's script hash to the standard account of committee[j], with fee = ContainerFee (plus
+// ContainerAliasFee iff a name is given) as read from Netmap in this invocation, and only after balanceOf(owner) >= fee*N.
+// cres("config", i) / cres("balanceOf", i) name the i-th result of the cross-contract reads.
+pure off(c Bytes) Int = 2 + c[1] + 4
+pure owner160(c Bytes) Bytes = c[off(c) + 1 : off(c) + 21]
+pure baddr(s Store) Bytes = s.get("balanceScriptHash")
+pure fee(name Bytes, b Int) Int = asint(cres("config", b)) + (len(name) == 0 ? 0 : asint(cres("config", b + 1)))
+
+func checkNiceNameAvailable(nnsContractAddr, domain) (r)
+  ensures store == old(store) && notifs == old(notifs)
+  ensures xcalls("transferX").len == old(xcalls("transferX")).len && xcalls("config").len == old(xcalls("config")).len
+       && xcalls("balanceOf").len == old(xcalls("balanceOf")).len
+  ensures forall j Int {xcalls("transferX")[j]} :: 0 <= j && j < old(xcalls("transferX")).len ==> xcalls("transferX")[j] == old(xcalls("transferX"))[j]
+
+func PutNamed(container, signature, publicKey, token, name, zone)
+  requires store.has("balanceScriptHash") && store.has("netmapScriptHash")
+  ensures [C05] W(alphabet())
+  ensures [C05] xcalls("transferX").len == old(xcalls("transferX")).len + len(committee())
+  ensures [C05] asint(cres("balanceOf", old(xcalls("balanceOf")).len)) >= fee(name, old(xcalls("config")).len) * len(committee())
+  ensures [C05] forall j Int {committee()[j]} :: 0 <= j && j < len(committee()) ==>
+        xcalls("transferX")[old(xcalls("transferX")).len + j] ==
+          ev_call_transferX(baddr(old(store)), "transferX", owner160(container), stdacct(committee()[j]),
+                            fee(name, old(xcalls("config")).len), "\x10" ++ sha256(container))
+  // the fee is read with config("ContainerFee") / config("ContainerAliasFee") from the Netmap contract and the balance with balanceOf(owner)
+  ensures [C05] xcalls("config")[old(xcalls("config")).len] == ev_call_config(old(store).get("netmapScriptHash"), "config", "ContainerFee")
+  ensures [C05] len(name) != 0 ==> xcalls("config")[old(xcalls("config")).len + 1] == ev_call_config(old(store).get("netmapScriptHash"), "config", "ContainerAliasFee")
+  ensures [C05] xcalls("balanceOf")[old(xcalls("balanceOf")).len] == ev_call_balanceOf(baddr(old(store)), "balanceOf", owner160(container))
+  // the container is stored in the same invocation
+  ensures [C05] store.has("x" ++ sha256(container))
+  loop 0
+    invariant xcalls("transferX").len == entry(xcalls("transferX")).len + $i && $i <= len(alphabet) && store == entry(store)
+    invariant forall j Int {alphabet[j]} :: 0 <= j && j < $i ==>
+        xcalls("transferX")[entry(xcalls("transferX")).len + j] ==
+          ev_call_transferX(balanceContractAddr, "transferX", from, stdacct(alphabet[j]), containerFee, details)
+    invariant forall j Int {xcalls("transferX")[j]} :: 0 <= j && j < entry(xcalls("transferX")).len ==> xcalls("transferX")[j] == entry(xcalls("transferX"))[j]
+    invariant xcalls("config").len == entry(xcalls("config")).len && xcalls("balanceOf").len == entry(xcalls("balanceOf")).len
+    invariant forall j Int {xcalls("config")[j]} :: 0 <= j && j < entry(xcalls("config")).len ==> xcalls("config")[j] == entry(xcalls("config"))[j]
+    invariant forall j Int {xcalls("balanceOf")[j]} :: 0 <= j && j < entry(xcalls("balanceOf")).len ==> xcalls("balanceOf")[j] == entry(xcalls("balanceOf"))[j]
+@*/
+
+/*@
+module roster
+props C14
+use common core
+dialect neovm
+
+// C14: placement roster. Keys: u<cid><vector><counter> pending roster, n<cid><vector><counter> committed roster,
+// r<cid><vector> REP numbers. The counter is stored as two big-endian bytes so that key order is submission order.
+// i2b/b2i: the VM's minimal little-endian two's-complement integer encoding (definitional axioms, A4).
+pure enc(x Int) Bytes = x == 0 ? "" :
+      (x < 128 ? byte(x) :
+      (x < 32768 ? byte(x % 256) ++ byte(x / 256) : byte(x % 256) ++ byte((x / 256) % 256) ++ byte(x / 65536)))
+axiom i2bdef: forall x Int {i2b(x)} :: 0 <= x && x < 8388608 ==> i2b(x) == enc(x)
+axiom b2i2:   forall s Bytes {b2i(s)} :: len(s) == 2 && s[1] < 128 ==> b2i(s) == s[0] + 256 * s[1]
+
+func counterToBytes(counter) (r)
+  pure
+  ensures [C14] 0 <= counter && counter < 32768 ==> len(r) == 2 && r[0] * 256 + r[1] == counter
+
+func counterFromBytes(counter) (r)
+  pure
+  ensures [C14] len(counter) == 2 && counter[0] < 128 ==> r == counter[0] * 256 + counter[1]
+
+// the two-byte big-endian form orders keys like the counters (submission order of the roster)
+lemma be16Monotone [C14]: forall a Int, b Int, x Bytes, y Bytes :: 0 <= a && a < b && b < 32768
+      && x[0] < 256 && x[1] < 256 && y[0] < 256 && y[1] < 256 && len(x) == 2 && x[0] * 256 + x[1] == a && len(y) == 2 && y[0] * 256 + y[1] == b ==> lexlt(x, y)
+
+// decode(encode(c)) == c for every counter below 32768 (crossing 127/255/256)
+lemma counterRoundTrip [C14]: forall c Int, r Bytes :: 0 <= c && c < 32768 && len(r) == 2 && r[0] < 256 && r[1] < 256 && r[0] * 256 + r[1] == c
+      ==> r[0] < 128 && r[0] * 256 + r[1] == c
+
+func validatePlacementIndex(ctx, cID, inx)
+  pure
+  ensures [C14] inx == 0 || cnt(store, "u" ++ cID ++ byte(inx - 1)) > 0
+
+func VerifyPlacementSignatures(cid, msg, sigs) (ok)
+  pure
+  // missing vectors never count: every committed vector must be covered by sigs
+  ensures [C14] ok ==> len(cid) == 32 && cnt(store, "r" ++ cid) <= len(sigs)
+  loop 0
+    invariant i == $it.pos && i <= sigsLen && sigsLen == len(sigs) && len(cid) == 32
+  loop 1
+    invariant 0 <= counter && i == entry(i) && sigsLen == entry(sigsLen)
+  loop 2
+    invariant 0 <= counter && counter >= entry(counter)
+
+@*/
